@@ -516,6 +516,16 @@ func JoiningNeighbours(rng *rand.Rand) [][]CellD {
 			out = append(out, []CellD{{G: p[0], S: st}, {G: p[1], S: StyleD{At: attr(1 + rng.Intn(127))}}})        // an SGR falls between them
 		}
 	}
+	// a hyperlink that ends, begins or changes exactly where the two cells would join (the encoder restarts the
+	// style there: an open link is part of it), alone, followed by more cells, and with a style of their own
+	for i, p := range pairs {
+		u := linkURIs[i%len(linkURIs)]
+		out = append(out, []CellD{{G: p[0], S: StyleD{L: u, LP: "id=1"}}, {G: p[1], S: StyleD{}}})
+		out = append(out, []CellD{{G: p[0], S: StyleD{L: u}}, {G: p[1], S: StyleD{}}, {G: "x", S: StyleD{At: attr(1)}}, {G: "y", S: StyleD{}}})
+		out = append(out, []CellD{{G: "a", S: StyleD{}}, {G: p[0], S: StyleD{}}, {G: p[1], S: StyleD{L: u}}, {G: "b", S: StyleD{}}})
+		out = append(out, []CellD{{G: p[0], S: StyleD{L: u, Fg: idx(2)}}, {G: p[1], S: StyleD{L: linkURIs[(i+1)%len(linkURIs)], Fg: idx(2)}}, {G: "z", S: StyleD{}}})
+		out = append(out, []CellD{{G: p[0], S: StyleD{L: u}}, {G: p[1], S: StyleD{L: u}}, {G: "w", S: StyleD{}}})
+	}
 	// three in a row, and the second pair member repeated
 	out = append(out, []CellD{{G: "\u1100"}, {G: "\u1161"}, {G: "\u11a8"}}, []CellD{{G: "\U0001F44D"}, {G: "\U0001F3FD"}, {G: "\U0001F3FD"}})
 	return out
